@@ -204,6 +204,14 @@ fn mutants(rng: &mut Rng, par: &Parent) -> Vec<Mutant> {
         let inside = !par.proc_inner.is_empty() && rng.chance(1, 4) && !l.ends_with(':');
         let at = if inside { *rng.pick(&par.proc_inner) } else { code_at(rng) };
         v.push(Mutant { class: format!("{}{}", class, if inside { ":in-procedure" } else { "" }), text: insert_line(&par.lines, at, &l) + "\n" });
+        // the same defect carried by a macro: the definition alone is text, the use must be refused
+        if !l.ends_with(':') && !l.contains('"') && rng.chance(1, 3) {
+            let at = code_at(rng);
+            let mut ls: Vec<String> = par.lines.clone();
+            ls.insert(at.min(ls.len()), "mbad(_)".to_string());
+            ls.insert(at.min(ls.len()), format!("macro mbad(_) -> {} <-", l));
+            v.push(Mutant { class: format!("{}:in-macro", class), text: ls.join("\n") + "\n" });
+        }
     }
     // constants one past each end of their range
     for (pos, tpl, lo, hi, unsigned) in const_positions() {
@@ -453,4 +461,4 @@ pub fn run(rep: &Report) {
     rep.floor("mutants run through the binary", rep.counter("mutants run through the binary"), 300);
 }
 
-pub const RULE: &str = "valid parents (random well-formed programs of all instruction classes and structured programs; each is first checked to be accepted) receive one defect each: a defective instruction line inserted at a random position of the code (top level or inside a procedure) from 46 templates - jump to an undefined / data label (14 jump spellings), call of a code label / data label / unknown name, byte/word data operand or OFFSET naming a code label or an unknown name, mixed operand widths (7 shapes x 10 mnemonics), two memory operands (5 shapes), unsupported instructions (in/out/lds/les/wait/esc/lock/into/iret), interrupt numbers other than 3/10h/21h in three radices, unsupported directives, duplicate code labels, a code label redefining a data label; a macro use carrying two forward jumps of which one target is never defined; duplicate data labels and procedures; every constant position (imm8/imm16 to register, memory, label; logic immediates; displacements of all addressing shapes; direct addresses; shift counts; SET; DB/DW values, fill values and array sizes) pushed one past the upper end, one past the lower end, and far outside in decimal/hex/binary; constants written as OFFSET of a data label placed at offsets 256..65535 in ten 8-bit positions; 'start' removed, spelled 'Start', or made a data label; at AST level the definition of a referenced label dropped and a jump retargeted to a data label / undefined name. Oracle: in process Preprocessor::parse is Err with a non-empty message or the replicated driver checks refuse; through the binary (every 8th mutant, and every mutant whose refusal is the driver's job: undefined labels, missing start) there are zero hook records, non-empty output and a clean exit. Distinct = mutation class (incl. position).";
+pub const RULE: &str = "valid parents (random well-formed programs of all instruction classes and structured programs; each is first checked to be accepted) receive one defect each: a defective instruction line inserted at a random position of the code (top level or inside a procedure) from 46 templates (a third of them also carried by a macro whose use must be refused) - jump to an undefined / data label (14 jump spellings), call of a code label / data label / unknown name, byte/word data operand or OFFSET naming a code label or an unknown name, mixed operand widths (7 shapes x 10 mnemonics), two memory operands (5 shapes), unsupported instructions (in/out/lds/les/wait/esc/lock/into/iret), interrupt numbers other than 3/10h/21h in three radices, unsupported directives, duplicate code labels, a code label redefining a data label; a macro use carrying two forward jumps of which one target is never defined; duplicate data labels and procedures; every constant position (imm8/imm16 to register, memory, label; logic immediates; displacements of all addressing shapes; direct addresses; shift counts; SET; DB/DW values, fill values and array sizes) pushed one past the upper end, one past the lower end, and far outside in decimal/hex/binary; constants written as OFFSET of a data label placed at offsets 256..65535 in ten 8-bit positions; 'start' removed, spelled 'Start', or made a data label; at AST level the definition of a referenced label dropped and a jump retargeted to a data label / undefined name. Oracle: in process Preprocessor::parse is Err with a non-empty message or the replicated driver checks refuse; through the binary (every 8th mutant, and every mutant whose refusal is the driver's job: undefined labels, missing start) there are zero hook records, non-empty output and a clean exit. Distinct = mutation class (incl. position).";
